@@ -78,6 +78,10 @@ THEOREMS = [
     "Verif.C11.calibrate_force_accepts_iff",
     "Verif.C11.calibrate_force_setup",
     "Verif.C11.calibrate_force_value_error_first",
+    "Verif.C11.driving_estimator_gaussian_spectrum",
+    "Verif.C11.robust_loss_zero_iff",
+    "Verif.C11.robust_loss_recovery_unique",
+    "Verif.C11.scaled_model_start",
 ]
 RULE = (
     "corpus (8 representative + the open finding F-C11-1) + exhaustive option matrix (hydro x axial x distance{None, at the "
@@ -115,7 +119,8 @@ RULE = (
     "c11.fitbounds); the keyword-argument glue of lk.calibrate_force (op c11.calibsetup): on every calibrate_force case "
     "the filter it ended up with (per diode parameter fitted / fixed at which value / absent, number of fitted parameters), "
     "and an exhaustive scope of the combinations it has to refuse (active x axial x transferred drag {None, 0, value} x fast "
-    "x fixed diode x hydro x driving data {None, empty, given} x guess {None, 0, negative, positive})."
+    "x fixed diode x hydro x driving data {None, empty, given} x guess {None, 0, negative, positive}); the robust loss "
+    "lorentzian_loss on a ScaledModel (op c11.lloss) for every filter shape x hydro at and around the generating parameters."
 )
 TRUSTED = [
     "RealLike formulas are proved over the reals and executed at Float: rounding is not modelled, the comparison "
@@ -364,7 +369,7 @@ def impl(case):
 
 
 def n_ops(case):
-    return {"passive": 1, "psd": 1, "active": 1, "route": 3, "anl": 1, "fit": 4, "drive": 1, "fitval": 1, "bounds": 1, "calibval": 1, "filter": 1, "calib": 2}[case["op"]]
+    return {"passive": 1, "psd": 1, "active": 1, "route": 3, "anl": 1, "fit": 4, "drive": 1, "fitval": 1, "bounds": 1, "calibval": 1, "lloss": 1, "filter": 1, "calib": 2}[case["op"]]
 
 
 def _impl(case, k):
@@ -427,6 +432,16 @@ def _impl(case, k):
         return impl_fit(case)
     if k == "calib":
         return impl_calib(case)
+    if k == "lloss":
+        # lorentzian_loss (module-level function of the anchored file) on a ScaledModel, as _fit_power_spectra calls it
+        from lumicks.pylake.force_calibration import power_spectrum_calibration as psc
+        from lumicks.pylake.force_calibration.detail.power_models import ScaledModel
+
+        m = build_model(case["o"], case.get("fixed"))
+        f, power = lloss_data(case, m)
+        sm = ScaledModel(lambda ff, *q: m(ff, *q), np.asarray(case["scale"], dtype=float))
+        v = psc.lorentzian_loss(np.asarray(case["scaled"], dtype=float), sm, f, power, case["nblock"])
+        return ["ok " + enc_float(float(v))]
     if k == "calibval":
         import lumicks.pylake as lk
 
@@ -871,6 +886,13 @@ def ops(case):
             f"{enc_float(info['eD'])} {fl(info['pars'])}{powers_token(meas)}",
             # impl_calib passes neither axial= nor drag= for active calibration
             calibsetup_op(dict(o, axial=False), fixed, True, True, case["a"]["guess"]),
+        ]
+    if k == "lloss":
+        m = build_model(case["o"], case.get("fixed"))
+        f, power = lloss_data(case, m)
+        return [
+            f"c11.lloss {opt_tokens(case['o'])} {filt_tokens(case['o'], case.get('fixed'))} {fl([float(x) for x in f])} "
+            f"{fl([float(x) for x in power])} {case['nblock']} {fl(case['scaled'])} {fl(case['scale'])}"
         ]
     if k == "calibval":
         return [calibsetup_op(case["o"], case.get("fixed"), case["active"], case["driving"] == "ok", case["guess"])]
@@ -1430,7 +1452,7 @@ def nontrivial(case, ia):
         return ia[1].startswith("ok")
     if k == "calib":
         return ia[0].startswith("ok") or o_valid(case["o"], case.get("fixed")) is not None
-    if k in ("drive", "fitval", "bounds", "calibval"):
+    if k in ("drive", "fitval", "bounds", "calibval", "lloss"):
         return True
     return False
 
@@ -1861,6 +1883,30 @@ def drive_case(rng, stream, quick):
     }
 
 
+def lloss_data(case, m):
+    """spectrum of a robust-loss case: the model at the generating parameters times a fixed pseudo-noise pattern"""
+    f = 150.0 + 380.0 * (np.arange(case["npts"]) + 0.5)
+    clean = np.asarray(m(f, *case["scale"]), dtype=float)
+    g = np.random.default_rng(case["subseed"])
+    return f, clean * g.gamma(case["nblock"], 1.0 / case["nblock"], size=len(f))
+
+
+def lloss_scope(rng, quick):
+    """robust loss: every filter shape x hydro (deterministic), scaled parameters around 1 (seeded)"""
+    r = rng.fork("lloss")
+    for hydro, (fast, fixed) in itertools.product(
+        (False, True), ((False, None), (True, None), (False, [9000.0, None]), (False, [None, 0.25]), (False, [12000.0, 0.5]))
+    ):
+        for rep in range(2 if quick else 10):
+            o = base_opts(d=1.1, visc=0.00095, temp=24.0, hydro=hydro, dist=5.0 if hydro and rep % 2 else None, fast=fast)
+            free = [v for v, fx in zip((11000.0, 0.35), fixed or (None, None)) if fx is None] if not fast else []
+            scale = [1400.0, 0.04, *free]
+            scaled = [1.0 if rep == 0 else r.uniform(0.8, 1.25) for _ in scale]
+            if len(scale) == 4 and scaled[3] * scale[3] > 1.0:
+                scaled[3] = 1.0
+            yield {"stream": "scope-robust-loss", "op": "lloss", "o": o, "fixed": fixed, "npts": 40, "nblock": r.choice([20, 150]), "scale": scale, "scaled": scaled, "subseed": 77 + rep}
+
+
 def calib_refusal(o, fixed, active, driving, guess):
     """which error the documentation of lk.calibrate_force / the constructors promises for these keyword arguments (None:
     accepted) - used ONLY to select the cases of the refusal scope, never as a verdict"""
@@ -2055,6 +2101,7 @@ def cases(tier, rng):
         for fixed in ([None, 1.5], [0.0, None], [-3.0, 0.5]):
             yield {"stream": "malformed", "op": "bounds", "kind": "fixed", "fixed": fixed, "rate": rate}
     yield from calibval_scope()
+    yield from lloss_scope(rng, quick)
     # ---- argument validation of fit_power_spectrum: exhaustive small scope (deterministic)
     for npts, loss, bias, anl in itertools.product((3, 4, 5, 12), ("gaussian", "lorentzian", "huber"), (False, True), (True, False)):
         yield {"stream": "scope-fit-validation", "op": "fitval", "npts": npts, "loss": loss, "bias": bias, "anl": anl}
